@@ -34,17 +34,17 @@ def chk(pid, engine, technique, text, note, design):
 
 CHECKS = {
  "C17": chk("C17", "stdinsim",
-   "deterministic simulation: seeded input texts and read(2) delivery plans with injected read errors against the real read_line, oracle = split of the text at newlines",
+   "deterministic simulation: seeded input texts and read(2) delivery plans with injected read errors (EIO/EINTR/EAGAIN, calls continued after retryable ones) against the real read_line; oracle = split of the text at newlines, chunking independence for texts with CR; a few cases cross-checked through a real pipe into the un-hooked binary",
    "Seeded search over (input text, how the simulated kernel splits it across read(0) calls, injected read error, script shape); every call's result is compared with the text split at '\\n'. Sampling, not proof: a clean batch is evidence that no chunking within the explored shapes loses, duplicates or reorders bytes.",
    "Trusts the stub of the kernel side of fd 0 (fake_libc::read: returns min(count, planned piece, remaining), then 0). CR handling and terminal line discipline are outside the statement and not generated.",
    "DESIGN.md 3.3"),
  "C16": chk("C16", "hostsim",
-   "deterministic simulation: real run_host_process on a simulated host (shuttle tasks + own seeded scheduler + discrete-event clock + simulated child/pipes) with injected short reads/writes, read errors, stalls and clock jitter; history oracle",
+   "deterministic simulation: real run_host_process on a simulated host (shuttle tasks + own seeded/recordable scheduler + discrete-event clock + simulated child/pipes) with injected short reads/writes, read errors, stalls and clock jitter; history oracle; schedule recorded, minimised and replayed; a few cases cross-checked against the real OS with a real helper child",
    "Seeded search over (child script, limits, policies, pipe capacity, fault plan) x schedules of the wait loop, stdin writer, two reader threads, child and clock. The oracle derives the legal outcomes from the recorded history (what the child really wrote, when it exited, what the loop compared): complete result, or the matching error, child reaped, progress within a step budget. Sampling, not proof.",
    "The OS (process, pipes, kill/wait, clock, scheduler) is a model written for this check; shuttle treats atomics as sequentially consistent. Grandchildren holding pipes and waitpid failures are outside the statement.",
    "DESIGN.md 3.1"),
  "C15": chk("C15", "hostsim",
-   "deterministic simulation: generated builder scripts run by the real runtime on the simulated host with injected spawn errors; reference model of the builder and of the documented limits; recorded spawn requests",
+   "deterministic simulation: generated builder scripts run by the real runtime on the simulated host with injected spawn errors; reference model of the builder and of the documented limits; recorded spawn requests; a few cases cross-checked against the real OS (un-hooked binary + helper child reporting argv/env/cwd/stdin)",
    "Seeded search over host policy / small limits / builder histories (variables, array slots, copies, functions, loops, adversarial strings) and two schedules each. Refused => the documented error and zero spawn attempts beyond the allowed ones; spawned => the recorded Command equals the model byte for byte and the child reads exactly the configured stdin.",
    "std::process::Command is a recording stub: that the OS receives what std was given (no shell) is trusted. When a command is both forbidden and invalid either refusal is accepted.",
    "DESIGN.md 3.2"),
